@@ -43,7 +43,11 @@ def decls(tier):
                 continue
             out.append((base, (menu[i].tag,)))
     if tier == "thorough":
-        pairs = [(i, j) for i in range(len(menu)) for j in range(len(menu))]
+        # every menu entry as the first field x a representative second field (the full 29 x 29 square with every
+        # option set does not finish within the thorough budget)
+        second = list(range(M.QUICK_MENU)) + [M.MENU.index(M.MENU_BY_TAG[t]) for t in
+                                               ("alias-both", "no-input-default", "no-output", "readonly", "defer", "exclude")]
+        pairs = [(i, j) for i in range(len(menu)) for j in second]
     else:
         q = list(range(M.QUICK_MENU)) + [M.MENU.index(M.MENU_BY_TAG[t]) for t in
                                            ("no-input-default", "no-output", "readonly", "dep", "dep-default", "exclude")]
